@@ -4,6 +4,7 @@
 -/
 import Rl2tp.Driver.Ops
 import Rl2tp.Spec.Hide
+import Rl2tp.Spec.Message
 namespace Rl2tp.Driver
 open Rl2tp.Text
 
@@ -20,6 +21,41 @@ def specRun (f : List String) : Option String :=
     let v := Spec.Hide.hiddenValue Spec.Md5.md5 a.attr (← unhex s) (← b4? rv) a.value (← unhex lp) ap
     some (renderAvp (.hidden a.attr v))
   | ["md5", b] => do some (hex (Spec.Md5.md5 (← unhex b)))
+  | ["dec", o, b] => do
+    let b ← unhex b
+    some (match Spec.decode (← parseOpts o) b with
+      | some (m, n) => "ok " ++ renderMsg m ++ " rem=" ++ toString (b.length - n)
+      | none => "err")
+  | ["decd", b] => do
+    let b ← unhex b
+    some (match Spec.decode Opts.default b with
+      | some (m, n) => "ok " ++ renderMsg m ++ " rem=" ++ toString (b.length - n)
+      | none => "err")
+  | ["avps", b] => do
+    let b ← unhex b
+    some ("[" ++ ";".intercalate ((Spec.avps (b.length + 1) b).map fun
+      | some a => renderAvp a
+      | none => "!") ++ "]")
+  | ["pay", t, b] => do
+    some (match Spec.parsePayload (← u16? t) (← unhex b) with
+      | some a => renderAvp a
+      | none => "!")
+  | ["utf8", b] => do some (if Spec.Utf8.valid (← unhex b) then "1" else "0")
+  | ["reveal", a, s, rv] => do
+    -- RFC 2661 §4.3 decryption (`Spec.Hide.decrypted`), then the format table on the announced octets
+    let a ← parseAvp a
+    let s ← unhex s
+    let rv ← b4? rv
+    match a with
+    | .hidden t v =>
+      if v.length = 0 ∨ v.length % 16 ≠ 0 then some "!" else
+      let plain := Spec.Hide.decrypted Spec.Md5.md5 t s rv v
+      let total := (Spec.u16At plain 0).toNat
+      if total < 6 ∨ total > 1023 ∨ total - 6 > v.length - 2 then some "!" else
+      some (match Spec.parsePayload t ((plain.drop 2).take (total - 6)) with
+        | some x => renderAvp x
+        | none => "!")
+    | _ => some "n/a"
   | _ => some "n/a"
 
 def specAnswer (line : String) : String :=
